@@ -51,6 +51,11 @@ CLAIMED = {
          "For every sampled case and entry point: result under every level/writer equals the default-level result, no panic; 0 bytes on fd 1/2 at the default level.",
          "Trusted: fstat-based fd size accounting of the worker. Quick runs all writers at trace/info and a third of the other level x writer pairs.",
          "DESIGN.md section 4 C15"),
+
+ "C17": ("TLA+ spec EnumTables (documented name tables of 21 exported enumerations + the offset-table stringer mechanism with each type's guard; the signed-type-guarded-only-from-above deviation violates NoOOB) model-checked by TLC over every value of every domain; the tables are emitted and the real String()/Extension()/FromString/IdentifyNamespace/UnmarshalText are run on the WHOLE domain of every type and every documented name; TagName/tag.ID.String over all IfdType x 2^16 ids",
+         "Exhaustive over the finite domains (2^8, 2^16, signed 16-bit): String() returns for every value, equals the documented name for documented values and the documented fallback otherwise; parsing a documented name gives the value back for ImageType, XMP namespaces and the text-unmarshalable meta enums; ~17 M TagName calls return.",
+         "Trusted: the documented tables in spec/MC_EnumTables.tla (reviewed against the doc comments / ExifTool tables; two discrepancies on the pinned tree were library defects and were fixed). Names of the large tag-id maps and camera-model maps are checked for totality only.",
+         "DESIGN.md section 4 C17"),
 }
 NOT_APPLICABLE = {
  "C18": "Bit-for-bit equality of AVX and Go float32 DCT kernels and their error bound against the real DCT-II are IEEE-754 statements over 2^(32*64) inputs; TLA+/TLC has no floating point and the kernels have no state machine to specify (DESIGN.md section 5).",
